@@ -1047,11 +1047,20 @@ class Interp:
             target = target.func
         if not isinstance(target, FuncV):
             raise VCError(f"vc.body of {target!r}")
-        self.body_mode.add(id(target))
+        ids = []
+        t = target
+        while isinstance(t, FuncV):
+            ids.append(id(t))
+            t = t.wraps
+        added = [i for i in ids if i not in self.body_mode]
+        self.body_mode.update(added)
         try:
-            return self.call_function(target, args, kwargs, node, force_body=True)
+            r = self.call_function(target, args, kwargs, node, force_body=True)
+            if isinstance(r, CoroV):
+                r.body_ids = tuple(ids)  # the body runs when the coroutine is awaited
+            return r
         finally:
-            self.body_mode.discard(id(target))
+            self.body_mode.difference_update(added)
 
     def call_function(self, f, args, kwargs, node=None, force_body=False):
         # modular verification: a callee with a contract is replaced by its spec function
